@@ -139,6 +139,10 @@ func histories(r *core.Run) {
 			continue
 		}
 		base[i] = out
+		if strings.Contains(out, "ERR:") || strings.TrimSpace(out) == "" {
+			// the comparison below would be vacuous
+			r.Violate("harness:job-produces-no-output:"+j.Name, fmt.Sprintf("lone run of job %s produced no decode output: %q", j.Name, trunc(out, 200)), HistCase{Kind: "hist", Mode: "lone", Seq: []int{i}})
+		}
 		if again, _ := loneRun(i); again != base[i] {
 			r.Violate("hist:lone-run-not-repeatable:"+j.Name, fmt.Sprintf("job %s: two lone runs (fresh processes) differ: %s", j.Name, firstDiff(base[i], again)), HistCase{Kind: "hist", Mode: "lone", Seq: []int{i}})
 		}
@@ -163,7 +167,7 @@ func histories(r *core.Run) {
 							if s != nil {
 								s.Close()
 							}
-							s, _ = fqrun.NewSession(fs)
+							s, _ = fqrun.NewCLISession(fs)
 						}
 						got := runJob(s, jobs[ji])
 						evals++
@@ -293,7 +297,7 @@ func run(r *core.Run) {
 	if s := os.Getenv("VERIF_C18_LONE"); s != "" {
 		var i int
 		fmt.Sscanf(s, "%d", &i)
-		sess, err := fqrun.NewSession(files(r.Repo))
+		sess, err := fqrun.NewCLISession(files(r.Repo))
 		if err != nil {
 			panic(err)
 		}
@@ -316,6 +320,10 @@ func run(r *core.Run) {
 	}
 	if only == "" || only == "hist" {
 		histories(r)
+	}
+	if only == "" || only == "corpushist" {
+		corpusHistories(r)
+		optionHistories(r)
 	}
 }
 
@@ -393,7 +401,7 @@ func freeRun(r *core.Run) {
 		go func(g int) {
 			defer func() { done <- struct{}{} }()
 			for k := 0; k < 6; k++ {
-				s, err := fqrun.NewSession(fs)
+				s, err := fqrun.NewCLISession(fs)
 				if err != nil {
 					return
 				}
